@@ -38,6 +38,7 @@ for Release/PdiffIndex each record is written as hash + " " + size.rjust(W) + " 
 (apt-ftparchive) or the longest size in that field (dak, pdiff).
 """
 import io
+import warnings
 import itertools
 
 from .. import core
@@ -119,6 +120,10 @@ def bounds(tier):
                               "checked": "as S (records, dump, re-parse, alignment) + dump() identical to the str form's + "
                                          "dump(BytesIO) / dump(StringIO, text_mode=True) write that text",
                               "other_encoding": "first of %s that can write the tokens" % OTHER_ENCODINGS},
+            "I_two_objects": {"plans": len(i_plans()) * 2, "classes": ["%s + %s" % c for c in I_CLASSES],
+                              "behaviours": "each Release left alone / dak / apt-ftparchive", "orders": I_ORDERS,
+                              "directions": ["assign-list", "text-multi"],
+                              "checked": "three dumps (object A, B, A resp. B, A, B), each as for that object alone"},
             "tokens": "a, bb, x/y.z, e-acute (seed rotates representatives)", "sizes": "1, 22, 17 digits"}
 
 
@@ -253,6 +258,7 @@ def units(tier, seed):
                         out.append({"family": "H", "cls": cname, "beh": beh, "field": fi, "init": init, "dir": d})
     for cname, beh in CONFIGS:
         out.append({"family": "F", "cls": cname, "beh": beh})
+    out.append({"family": "I", "cls": "Release", "beh": None})
     return out
 
 
@@ -263,6 +269,8 @@ def unit_cost(u, tier):
         return (1 if "init" in u else 4) * (11 ** H_DEPTH[tier]) * 6
     if u["family"] == "F":
         return 6 * len(FORMS) * 40
+    if u["family"] == "I":
+        return len(i_plans()) * 2 * 40
     nsub = len(TABLE[u["cls"]][u["field"]][1])
     return {1: 3 * 4 ** (nsub - 1), 2: 144 if tier == "quick" else 576, 3: 216 if tier == "quick" else 13824,
             4: 1296}[u["length"]] * 5
@@ -394,6 +402,11 @@ FORMS = ["str", "bytes", "lines-nl", "lines-nonl", "bytes-lines", "tuple-lines",
          "bytes-other-encoding", "BytesIO-other-encoding",
          "bytes-lines-other-encoding", "iter_paragraphs", "iter_paragraphs-lines", "iter_paragraphs-BytesIO"]
 OTHER_ENCODINGS = ["latin-1", "iso-8859-5", "euc-jp"]
+# bytes in which one line ahead of the structured fields is in a legacy 8-bit encoding and everything else UTF-8: every
+# line is decoded on its own (lib/debian/tests/test_deb822.py reads such files)
+MIXED_FORMS = ["mixed-bytes", "mixed-bytes-lines", "mixed-BytesIO"]
+MIXED_LINE = "Maintainer: Sim\xf3n Garc\xeda <s@example.org>\n".encode("latin-1")
+FORMS += MIXED_FORMS
 
 
 def other_encoding(text):
@@ -453,6 +466,13 @@ def construct(cls, text, form):
     if form == "bytes-lines-other-encoding":
         enc = other_encoding(text)
         return cls(text.encode(enc).splitlines(True), encoding=enc)
+    if form in MIXED_FORMS:
+        lines = text.encode("utf-8").splitlines(True)
+        lines.insert(1, MIXED_LINE)
+        src = {"mixed-bytes": b"".join(lines), "mixed-bytes-lines": lines, "mixed-BytesIO": io.BytesIO(b"".join(lines))}[form]
+        with warnings.catch_warnings():
+            warnings.simplefilter("ignore")
+            return cls(src)
     if form in ("iter_paragraphs", "iter_paragraphs-lines", "iter_paragraphs-BytesIO"):
         # two paragraphs: the one under test and a second one that must not leak into it
         more = text + "\nOrigin: second paragraph\n"
@@ -580,7 +600,12 @@ def exec_case(case, stats=None):
             ref_text = ref.dump()
         except Exception as e:
             return finish([("mv/%s/form/reference-raises/%s" % (cfg, type(e).__name__), "cls(str) dumps", _exc(e))])
-        if text != ref_text:
+        if form in MIXED_FORMS:
+            # how the legacy line itself decodes is the detector's business
+            cmp_text = "".join(l for l in text.splitlines(True) if not l.startswith("Maintainer:"))
+        else:
+            cmp_text = text
+        if cmp_text != ref_text:
             bad.append(("mv/%s/form/dump-differs-from-str-form" % cfg, ref_text, text))
         enc = other_encoding(make_text(case)) if form.endswith("-other-encoding") else "utf-8"
         for how, want_out in (("fd-bytes", text.encode(enc)), ("fd-text", text)):
@@ -843,7 +868,91 @@ def exec_history(case, stats=None):
     return finish([])
 
 
+# ------------------------------------------------------------------------------------------------ family I: two objects alive
+#
+# Two paragraphs of the classes with a size column exist at the same time, hold different records and are configured
+# differently (a Release left alone uses the documented default, apt-ftparchive = 16 columns); every dump of either has to be
+# what the statement says for that object alone.
+
+I_CLASSES = [("Release", "Release"), ("Release", "PdiffIndex"), ("PdiffIndex", "Release")]
+I_BEHS = [None, "dak", "apt-ftparchive"]
+I_ORDERS = ["one-after-the-other", "interleaved"]
+
+
+def i_plans():
+    out = []
+    for c0, c1 in I_CLASSES:
+        for b0 in (I_BEHS if c0 == "Release" else [None]):
+            for b1 in (I_BEHS if c1 == "Release" else [None]):
+                for order in I_ORDERS:
+                    out.append([c0, c1, b0, b1, order])
+    return out
+
+
+def i_fields(cname, shift, seed):
+    table = TABLE[cname]
+    sub = [0, len(table) - 1]
+    return [[spell(table[fi][0], seed), table[fi][1], rotating_records(len(table[fi][1]), fi + shift, 2 + shift, seed)]
+            for fi in sub]
+
+
+def exec_iso(case, stats=None):
+    c = [case["c0"], case["c1"]]
+    b = [case["b0"], case["b1"]]
+    fields = [[(n, list(sf), [list(r) for r in recs]) for n, sf, recs in case["fields%d" % i]] for i in (0, 1)]
+    objs = [None, None]
+
+    def new(i):
+        sub = dict(case, cls=c[i], fields=case["fields%d" % i])
+        if case["dir"].startswith("text-"):
+            objs[i] = _cls(c[i])(make_text(sub))
+        else:
+            o = _cls(c[i])({"Origin": "x"})
+            for n, sf, recs in fields[i]:
+                o[n] = [dict(zip(sf, r)) for r in recs]
+            o["Label"] = "y"
+            objs[i] = o
+
+    def conf(i):
+        if b[i] is not None:
+            objs[i].size_field_behavior = b[i]
+
+    if case["order"] == "one-after-the-other":
+        steps = [(new, 0), (conf, 0), (new, 1), (conf, 1)]
+        dumps = [0, 1, 0]
+    else:
+        steps = [(new, 0), (new, 1), (conf, 0), (conf, 1)]
+        dumps = [1, 0, 1]
+    try:
+        for f, i in steps:
+            f(i)
+    except Exception as e:
+        return [("mv/two-objects/construct/raises/%s" % type(e).__name__, "no exception", _exc(e))]
+    evals = 0
+    for k, i in enumerate(dumps):
+        eff = (b[i] or "apt-ftparchive") if c[i] == "Release" else None
+        try:
+            text = objs[i].dump()
+        except Exception as e:
+            return [("mv/two-objects/dump/raises/%s" % type(e).__name__, "dump() returns text", _exc(e))]
+        single = dict((n, False) for n, _s, _r in fields[i])
+        bad, n = check_text(c[i], eff, fields[i], single, text, pre="two-objects/")
+        evals += n
+        if bad:
+            if stats is not None:
+                stats["__evaluations__"] += evals
+            return [(sig, exp, "dump #%d (of object %d, %s%s, the other being %s%s): %s" % (
+                k + 1, i, c[i], "/" + str(b[i]) if c[i] == "Release" else "", c[1 - i],
+                "/" + str(b[1 - i]) if c[1 - i] == "Release" else "", obs)) for sig, exp, obs in bad[:1]]
+    if stats is not None:
+        stats["__evaluations__"] += evals
+        stats["two objects alive (%s + %s): every dump as for the object alone" % (c[0], c[1])] += 1
+    return []
+
+
 def nontrivial(case):
+    if case["family"] == "I":
+        return True
     if case["family"] == "H":
         return bool(case["ops"])
     n_struct = len(TABLE[case["cls"]])
@@ -869,7 +978,21 @@ def run_unit(u, tier, seed):
         for sig, exp, obs in bad:
             part.violation(sig, case, exp, obs)
 
-    if u["family"] == "H":
+    if u["family"] == "I":
+        for c0, c1, b0, b1, order in i_plans():
+            for d in ("assign-list", "text-multi"):
+                case = {"family": "I", "c0": c0, "c1": c1, "b0": b0, "b1": b1, "order": order, "dir": d,
+                        "fields0": i_fields(c0, 0, seed), "fields1": i_fields(c1, 1, seed)}
+                part.states += 1
+                part.transitions += 3
+                part.traces += 1
+                part.nontrivial += 1
+                for sig, exp, obs in exec_iso(case, stats):
+                    part.violation(sig, case, exp, obs)
+                part.extra["I plans (two objects alive)"] += 1
+        part.max_depth = max(part.max_depth, 7)
+        part.sample(case)
+    elif u["family"] == "H":
         fi = u["field"]
         name, subs = table[fi]
         ofi = (fi + 1) % len(table)
@@ -954,13 +1077,15 @@ def run_unit(u, tier, seed):
 
 
 def replay(case):
+    if case["family"] == "I":
+        return exec_iso(case)
     if case["family"] == "H":
         return exec_history(case)
     return exec_case(case)
 
 
 def repro_py(case):
-    if case["family"] == "H" or case.get("form"):
+    if case["family"] in ("H", "I") or case.get("form"):
         return "from mc.props import c12\ncase = %r\nbad = c12.replay(case)\nassert not bad, bad\n" % (case,)
     lines = ["from debian import deb822", "case = %r" % (case,)]
     if case["dir"].startswith("text-"):
